@@ -4,14 +4,17 @@
    Model: Model/Utf8.v (utf8.DecodeRuneInString), Model/Scanner.v, Model/Parser.v;
    [parse_text letter digit t] is syntax.ParseFile on the bytes t (parser.New; Advance;
    ParseFile) for a classification of letters and digits.
-   Vocabulary: Spec/SyntaxSpec.v (wf_tree_b, cover_b, interleave, err_in_bounds_b) -- the
-   executable statements that every check run evaluates on the Go parser's own output.
+   Vocabulary: Spec/SyntaxSpec.v (wf_tree_b, cover_b, interleave, err_in_bounds_b) and
+   Spec/LeafSpec.v (wf_leaves_b: the lexical class of every leaf; wf_keywords_b: the keyword
+   that justifies the kind of every node) -- the executable
+   statements that every check run evaluates on the Go parser's own output.
    All theorems hold for EVERY byte list t (incl. invalid UTF-8, CR/LF mixes, any length)
    and for EVERY classification letter/digit : Z -> bool (in particular for
    UnicodeTables.is_letter / is_digit, the tables of the Go toolchain).                      *)
 From Coq Require Import String ZArith List Bool.
 From Knut Require Import Model.Bytes Model.Utf8 Model.UnicodeTables Model.Scanner Model.Parser
-  Spec.SyntaxSpec Proofs.ScannerProofs Proofs.ParserProofs.
+  Spec.SyntaxSpec Spec.LeafSpec Proofs.ScannerProofs Proofs.ParserProofs Proofs.RoundTripLeaf
+  Proofs.RoundTripTop Proofs.LeafProofs Proofs.KeywordProofs.
 Import ListNotations.
 Open Scope Z_scope.
 
@@ -34,8 +37,7 @@ Print Assumptions C07_err_in_bounds.
    top-level directives are non-empty, strictly increasing and disjoint; the payload of a
    directive has the directive's range (include: ends with it); a quoted string's content is
    the string without its quotes; absent addons are zero values; there is no nil payload.
-   Leaf lexical classes beyond the quotes (date = 4-2-2 digits, account segments, decimals)
-   are not part of wf_tree_b. *)
+   The lexical classes of the leaves are C07_leaves. *)
 Theorem C07_wf : forall letter digit t f,
   parse_text letter digit t = ParseOk f -> wf_tree_b t f = true.
 Proof. exact parse_text_wf. Qed.
@@ -51,6 +53,53 @@ Theorem C07_cover : forall letter digit t f,
 Proof. exact parse_text_cover. Qed.
 Print Assumptions C07_cover.
 
+(* every leaf's slice is in its lexical class (Spec/LeafSpec.v): the slice decodes into runes
+   (no range cuts an encoding or covers an invalid byte) and, over those runes,
+     date = dddd-dd-dd;  decimal = -?d+(.d+)?;  commodity = a+;
+     account = a+(:a+)* not starting with `$` when Macro is false, `$`l+ when Macro is true;
+     interval = daily|weekly|monthly|quarterly;
+     quoted string = quote, runes other than the quote, quote, and Content = what is between;
+   a transaction has a booking, an assertion a balance, there is no nil payload; the targets
+   of @performance are commodities and @accrue is the zero value or interval, two dates and
+   an account.  d, l, a are the digit, letter, letter-or-digit predicates of the parser: the
+   statement holds for every classification (no class_ok hypothesis is needed) *)
+Theorem C07_leaves : forall letter digit t f,
+  parse_text letter digit t = ParseOk f -> wf_leaves_b letter digit t f = true.
+Proof. exact parse_text_leaves. Qed.
+Print Assumptions C07_leaves.
+
+(* in particular for the tables of the Go toolchain *)
+Theorem C07_leaves_unicode : forall t f,
+  parse_text is_letter is_digit t = ParseOk f -> wf_leaves_b is_letter is_digit t f = true.
+Proof. exact (parse_text_leaves is_letter is_digit). Qed.
+Print Assumptions C07_leaves_unicode.
+
+(* the kind of every node is justified by the text (Spec/LeafSpec.v, bytes): between the date
+   and the payload stand blanks (32, 9, 13), the keyword of the payload's kind -- open, close,
+   price, balance -- and blanks (after `balance` the line may end instead: the multi-line
+   form); a transaction's description follows its date after blanks only; an include is
+   `include`, blanks, the path; a present @performance is `@performance(` ... `)`, a present
+   @accrue is `@accrue`, blanks, the interval.  That the blanks after open/close/price are not
+   empty needs that the newline is not alphanumeric: the hypothesis class_ok (blank, tab, CR,
+   newline, `)` `,` `#` `*` `/` are neither letters nor digits, `i` is one), which holds of
+   the Unicode tables (C08_class_ok_unicode) *)
+Theorem C07_keywords : forall letter digit t f, class_ok letter digit ->
+  parse_text letter digit t = ParseOk f -> wf_keywords_b t f = true.
+Proof. exact parse_text_keywords. Qed.
+Print Assumptions C07_keywords.
+
+Theorem C07_keywords_unicode : forall t f,
+  parse_text is_letter is_digit t = ParseOk f -> wf_keywords_b t f = true.
+Proof. exact (fun t f => parse_text_keywords is_letter is_digit t f unicode_class_ok). Qed.
+Print Assumptions C07_keywords_unicode.
+
+(* for an arbitrary classification the statement is false: if the newline is a letter, the
+   account of `open` may start with it *)
+Theorem C07_keywords_unrestricted_refuted :
+  exists letter digit t f, parse_text letter digit t = ParseOk f /\ wf_keywords_b t f = false.
+Proof. exact keywords_unrestricted_refuted. Qed.
+Print Assumptions C07_keywords_unrestricted_refuted.
+
 (* the three results in one statement *)
 Theorem C07_total : forall letter digit t,
   match parse_text letter digit t with
@@ -60,6 +109,17 @@ Theorem C07_total : forall letter digit t,
   end.
 Proof. exact parse_text_total. Qed.
 Print Assumptions C07_total.
+
+(* everything about a tree the Go parser's tables produce, in one statement *)
+Theorem C07_total_unicode : forall t,
+  match parse_text is_letter is_digit t with
+  | ParseOk f => wf_tree_b t f = true /\ cover_b t f = true /\ interleave t f = t /\
+                 wf_leaves_b is_letter is_digit t f = true /\ wf_keywords_b t f = true
+  | ParseErr e => err_in_bounds_b t e = true
+  | ParseFuel => False
+  end.
+Proof. exact parse_text_total_unicode. Qed.
+Print Assumptions C07_total_unicode.
 
 (* the decoder facts the proofs rest on hold of Go's decoder as modelled in Model/Utf8.v *)
 Theorem C07_decoder : decoder_ok Utf8M.decode.
@@ -94,6 +154,70 @@ Example C07_example_invalid_utf8 :
   parse_text is_letter is_digit [35; 32; 255; 10] =
   ParseErr [mkErr (KWhile DFile) 0 2; mkErr (KWhile DComment) 0 2; mkErr KNext 1 2; mkErr KUtf8 2 2].
 Proof. vm_compute. reflexivity. Qed.
+
+(* the leaves of the example are in their classes *)
+Example C07_example_leaves :
+  exists f, parse_text is_letter is_digit ex_text = ParseOk f /\ wf_leaves_b is_letter is_digit ex_text f = true.
+Proof. eexists. split; [vm_compute; reflexivity|]. vm_compute. reflexivity. Qed.
+
+(* the classes are not vacuous: what they accept and what they reject *)
+Definition ex_in (c : list Z -> bool) (s : string) : bool := in_class Utf8M.decode c (runes_of_string s).
+Example C07_classes_accept :
+  ex_in (date_rs is_digit) "2020-01-31" = true /\
+  ex_in (decimal_rs is_digit) "-10.50" = true /\ ex_in (decimal_rs is_digit) "7" = true /\
+  ex_in (account_rs is_letter is_digit false) "Assets:Bank:CH93" = true /\
+  ex_in (account_rs is_letter is_digit true) "$dividend" = true /\
+  ex_in (commodity_rs is_letter is_digit) "CHF" = true.
+Proof. vm_compute. repeat split. Qed.
+Example C07_classes_reject :
+  ex_in (date_rs is_digit) "2020-01-3" = false /\ ex_in (date_rs is_digit) "2020-1-031" = false /\
+  ex_in (date_rs is_digit) "2020/01/31" = false /\
+  ex_in (decimal_rs is_digit) "1." = false /\ ex_in (decimal_rs is_digit) ".5" = false /\
+  ex_in (decimal_rs is_digit) "--1" = false /\ ex_in (decimal_rs is_digit) "1.2.3" = false /\
+  ex_in (decimal_rs is_digit) "1,5" = false /\
+  ex_in (account_rs is_letter is_digit false) "Assets:" = false /\
+  ex_in (account_rs is_letter is_digit false) ":Assets" = false /\
+  ex_in (account_rs is_letter is_digit false) "A::B" = false /\
+  ex_in (account_rs is_letter is_digit false) "A B" = false /\
+  ex_in (account_rs is_letter is_digit false) "$x" = false /\
+  ex_in (account_rs is_letter is_digit true) "$x1" = false /\
+  ex_in (account_rs is_letter is_digit true) "$" = false /\
+  ex_in (commodity_rs is_letter is_digit) "" = false /\ ex_in (commodity_rs is_letter is_digit) "C-F" = false /\
+  in_class Utf8M.decode (commodity_rs is_letter is_digit) [67; 195] = false.
+Proof. vm_compute. repeat split. Qed.
+
+(* a tree whose date leaf has a one-digit day passes wf_tree_b and cover_b, not wf_leaves_b *)
+Example C07_spec_rejects_short_day :
+  let t := runes_of_string "2020-01-1 open A
+"%string in
+  let f := mkFile (mkRange 0 17)
+     [mkDirective (mkRange 0 16) (BOpen (mkOpen (mkRange 0 16) (mkRange 0 9) (mkAccount (mkRange 15 16) false)))] in
+  wf_tree_b t f = true /\ cover_b t f = true /\ wf_leaves_b is_letter is_digit t f = false.
+Proof. vm_compute. repeat split. Qed.
+
+(* the keywords of the example are where the kinds say *)
+Example C07_example_keywords :
+  exists f, parse_text is_letter is_digit ex_text = ParseOk f /\ wf_keywords_b ex_text f = true.
+Proof. eexists. split; [vm_compute; reflexivity|]. vm_compute. reflexivity. Qed.
+
+(* a `close` directive returned as an opening passes every other check, not wf_keywords_b; so
+   does an `open` whose keyword touches the account *)
+Example C07_spec_rejects_wrong_kind :
+  let t := runes_of_string "2020-01-01 close A
+"%string in
+  let f := mkFile (mkRange 0 19)
+     [mkDirective (mkRange 0 18) (BOpen (mkOpen (mkRange 0 18) (mkRange 0 10) (mkAccount (mkRange 17 18) false)))] in
+  wf_tree_b t f = true /\ cover_b t f = true /\ wf_leaves_b is_letter is_digit t f = true /\
+  wf_keywords_b t f = false.
+Proof. vm_compute. repeat split. Qed.
+Example C07_spec_rejects_glued_keyword :
+  let t := runes_of_string "2020-01-01 openA
+"%string in
+  let f := mkFile (mkRange 0 17)
+     [mkDirective (mkRange 0 16) (BOpen (mkOpen (mkRange 0 16) (mkRange 0 10) (mkAccount (mkRange 15 16) false)))] in
+  wf_tree_b t f = true /\ cover_b t f = true /\ wf_leaves_b is_letter is_digit t f = true /\
+  wf_keywords_b t f = false.
+Proof. vm_compute. repeat split. Qed.
 
 (* the specification rejects trees that are not covers: a directive range shifted by one *)
 Example C07_spec_rejects_shifted :
